@@ -3,9 +3,11 @@ package loader
 import (
 	"fmt"
 	"github.com/f1bonacc1/process-compose/src/command"
+	"github.com/f1bonacc1/process-compose/src/health"
 	"github.com/f1bonacc1/process-compose/src/templater"
 	"github.com/f1bonacc1/process-compose/src/types"
 	"github.com/rs/zerolog/log"
+	"maps"
 	"path/filepath"
 )
 
@@ -101,7 +103,12 @@ func cloneReplicas(p *types.Project) {
 			if proc.Replicas == 1 {
 				p.Processes[repName] = proc
 			} else {
-				procsToAdd = append(procsToAdd, proc)
+				// what is rendered per replica later on must not be shared between replicas
+				replicaProc := proc
+				replicaProc.Vars = maps.Clone(proc.Vars)
+				replicaProc.ReadinessProbe = cloneProbe(proc.ReadinessProbe)
+				replicaProc.LivenessProbe = cloneProbe(proc.LivenessProbe)
+				procsToAdd = append(procsToAdd, replicaProc)
 			}
 		}
 	}
@@ -111,6 +118,22 @@ func cloneReplicas(p *types.Project) {
 	for _, proc := range procsToAdd {
 		p.Processes[proc.ReplicaName] = proc
 	}
+}
+
+func cloneProbe(probe *health.Probe) *health.Probe {
+	if probe == nil {
+		return nil
+	}
+	clone := *probe
+	if probe.Exec != nil {
+		exec := *probe.Exec
+		clone.Exec = &exec
+	}
+	if probe.HttpGet != nil {
+		httpGet := *probe.HttpGet
+		clone.HttpGet = &httpGet
+	}
+	return &clone
 }
 
 func assignExecutableAndArgs(p *types.Project) {
